@@ -313,6 +313,9 @@ class AnnotationDAGBuilder:
             self._dag.add_node(get_node_id(input_node))
         else:
             self._traverse_breadth_first_to_dag(input_node, output_node)
+            # The traversal only adds nodes together with an edge: an output node that is the input node itself
+            # (a one-node pipeline given as build_dag(node, node)) has none and would leave the graph empty
+            self._dag.add_node(get_node_id(output_node))
 
         self._validate_graph()
 
